@@ -18,13 +18,19 @@ MANIFEST = {
     "text": "Theorems over Model/EngineSM.v: C16_block_is_ref / C16_sig_block_is_ref (for every element list and every block body of the grammar "
             "the engine's expansion function returns the reference block: body once per element in list order, name tags in their case variant, "
             "NUM/ALPH = index/letter), C16_block_stage (PairExpander.Expand of the kind's stage replaces exactly the block; stage present in the "
-            "source-derived stage list: C16_stage_in_source), C16_model_first_appearance (states/events/actions/guards/signatures of the engine's "
-            "table model = first-appearance lists of the table), C16_replace_segmentwise, C16_outside_unchanged, C16_letter. The real output is "
+            "source-derived stage list: C16_stage_in_source), C16_model_first_appearance (states/events/actions/guards/signatures/transitions-per-state of the engine's "
+            "table model = first-appearance lists of the table, no side condition), C16_replace_segmentwise, C16_outside_unchanged, C16_letter. The real output is "
             "compared with ref16 (extracted) on every generated template accepted by in_grammar16/wf16, and ref16 with an independent Python reference.",
     "note": "C16_engine_is_ref / C16_engine_is_ref_table: the whole pipeline (15 stages in source order, then user tags / FOR / write) on every "
-            "template of in_grammar16 with any number of blocks of any kinds equals ref16. PARTIAL: the nested per-state/per-event/"
-            "per-transition blocks (alternative text) are not in the Coq template syntax; they are modelled, tied by differential execution and "
-            "observed against the Python reference. The per-(template, table) conditions wf_elements16 follow from syntactic name conditions (C07_names_wf16 in Props/C07.v: non-empty alphanumeric element names, every block body line with a visible literal character). signature/member/documentation/attribute tags are not modelled. Values substituted must not contain '<' '>' (checked per case).",
+            "template of in_grammar16 with any number of blocks of any kinds equals ref16. The nested per-state/per-event/per-transition blocks with "
+            "alternative text are in the Coq template syntax (TransBlock/titem/eitem, reference ref_trans): C16_nested_block_is_ref "
+            "(innerexpand_transitionsperstate = reference for every transition structure), C16_model_transitions (the dictionary of dictionaries "
+            "of the table model = the declarative structure of the table, for every table), and the block is an item of C16_engine_is_ref(_table); "
+            "the harness converts its transition sections into that syntax, so real = ref16 is checked on them inside in_grammar16. Restrictions of the "
+            "nested grammar: no state tag inside a per-event block, at most one conditional tag on a line and no state/event tag on such a line, "
+            "alternative text closed. PARTIAL: the transition blocks of the shipped TEMPLATEStateMachine.py / TEMPLATEInternals.cs are outside "
+            "in_grammar16 (2 resp. 4 lines with a literal '<' or '>': '-> None:', \"<class '\", '/// <summary>', 'Exit<<<<X>>>>'); for those the engine "
+            "stays tied to the generator models by execution (C08/C10). The per-(template, table) conditions wf_elements16 follow from syntactic name conditions (C07_names_wf16 in Props/C07.v: non-empty alphanumeric element names, every block body line with a visible literal character). signature/member/documentation/attribute tags are not modelled. Values substituted must not contain '<' '>' (checked per case).",
 }
 RULE = ("probe templates: 1-5 sections out of {plain text with blank runs and TABs, PER_STATE/EVENT/ACTION/GUARD/STRUCT/MSG/PROTOMSG block with "
         "1-3 body lines using the name tag of the block in its three case variants plus NUM/ALPH, PER_ACTION_SIGNATURE block, nested "
@@ -295,13 +301,32 @@ def wire16(secs):
             t += [["X", l[:-1]] for l in sec[1]]
         elif sec[0] == "elem":
             ib, ie = sec[3] if len(sec) > 3 else ("", "")
-            t.append(["B", sec[1], ib, ie, [l for l in sec[2]]])
+            t.append(["B", sec[1], ib, ie, [segs_of(l) if isinstance(l, str) else l for l in sec[2]]])
         elif sec[0] == "sig":
             ib, ie = sec[2] if len(sec) > 2 else ("", "")
-            t.append(["S", ib, ie, [l for l in sec[1]]])
+            t.append(["S", ib, ie, [segs_of(l) if isinstance(l, str) else l for l in sec[1]]])
+        elif sec[0] == "trans":
+            _k, s_pre, e_pre, g_body, e_post, s_post = sec
+            ev = [["EL", segs_of(l)] for l in e_pre] + [["EG", "", "", [segs_of(l) for l in g_body]]] + [["EL", segs_of(l)] for l in e_post]
+            t.append(["TB", "", "", [["TL", segs_of(l)] for l in s_pre] + [["TE", "", "", ev]] + [["TL", segs_of(l)] for l in s_post]])
         else:
             return None
     return t
+
+
+def segs_of(line):
+    """a template line (text) as a segment list"""
+    text = line[:-1] if line.endswith("\n") else line
+    out, pos = [], 0
+    for m in re.finditer(r"<<<([^<>]*)>>>", text):
+        if m.start() > pos:
+            out.append(["L", text[pos:m.start()]])
+        body = m.group(1)
+        out.append(["T"] + (body.split("=", 1) if "=" in body else [body]))
+        pos = m.end()
+    if pos < len(text):
+        out.append(["L", text[pos:]])
+    return out
 
 
 def coq_side(km, secs, table, structs, protos, msgs):
